@@ -91,6 +91,20 @@ CLAIMS = {
    note="Trusted: pyvc encoding, z3; SBlock.event (C11/C09), timer contracts (C04); the storage is a dict-like heap object; get_state() is "
         "a function of the block state; clock reads of _get_timediff simultaneous.  The save sites of run_forever (states and stop "
         "time written iff the start completed, before the blocks are stopped) and _init_sblocks_sync_2 are order-automaton obligations."),
+ 'C07': dict(
+   text="TimeDate.recalc/_is_configured/_event_reconfig, TimeSpan.recalc/_event_reconfig, _Interval.range_endpoints, Cron._check_tz/"
+        "add_block/remove_block/reload/_maintask and utils.flag.Flag are executed from the real AST.  recalc: set_output(P(now)) with P "
+        "written from the statement (configured, and time of day / date / weekday each unconstrained or matching, memberships by the "
+        "rules of C13).  Reconfiguration: old registrations removed, every endpoint of the new times (TimeSpan: every endpoint that is "
+        "not in the past) and midnight registered in the scheduler's table, reload after the last change, then recalc for the current "
+        "time.  The table operations are exact map updates.  Scheduler loop (three-step wake-up protocol cut by an invariant, hourly "
+        "entries, clock reads arbitrary): it sleeps only while the wake-up time is ahead (difference taken the short way round the "
+        "clock) and never beyond it; a scheduled recalculation happens 0..2.5 s after its time for exactly the blocks registered for "
+        "it; a time-tracking problem recalculates every registered block.  Two defects found by these obligations, replayed and fixed "
+        "in /repo (TypeError in the reset branch without alarms; wake-up times in hour 23 seen from after midnight).",
+   note="Trusted: pyvc encoding, z3; datetime values (order embedding, attribute ranges), bisect/sorted contracts, asyncio sleep/"
+        "wait_for; interval constructors behind interface contracts (C13).  Not proved as one theorem: the whole-history statement "
+        "(composition of the contracts) and millisecond accuracy (event loop / OS)."),
  'C08': dict(
    text="Circuit.run_forever, _stop_sblocks, _run_tasks, wait_init, _check_started, shutdown, is_current_task, check_not_finalized, "
         "set_persistent_data and addblock are executed from the real AST; every await is an environment step under the guarantees "
